@@ -167,16 +167,29 @@ def r2_fraction(rep, ctx):
     loops = [w for w in ast.walk(init.node) if isinstance(w, ast.While)]
     if len(loops) != 1:
         raise AnalysisError("Fraction.__init__: the scaling loop was not found")
-    cond = ast.unparse(loops[0].test).replace(" ", "")
+    # shape of the loop test: abs(X - round(X)) > SMALL in any of its spellings; X is the scaled name
+    tst = loops[0].test
+    X = None
+    if isinstance(tst, ast.Compare) and len(tst.ops) == 1 and isinstance(tst.ops[0], (ast.Gt, ast.Lt, ast.GtE, ast.LtE)):
+        big, small = (tst.left, tst.comparators[0]) if isinstance(tst.ops[0], (ast.Gt, ast.GtE)) else (tst.comparators[0], tst.left)
+        if isinstance(big, ast.Call) and isinstance(big.func, ast.Name) and big.func.id == "abs" and len(big.args) == 1 and isinstance(big.args[0], ast.BinOp) and isinstance(big.args[0].op, ast.Sub):
+            l_, r_ = big.args[0].left, big.args[0].right
+            for p_, q_ in ((l_, r_), (r_, l_)):
+                if isinstance(p_, ast.Name) and isinstance(q_, ast.Call) and isinstance(q_.func, ast.Name) and q_.func.id == "round" and len(q_.args) == 1 and isinstance(q_.args[0], ast.Name) and q_.args[0].id == p_.id:
+                    X = p_.id
+    if X is None:
+        raise AnalysisError("Fraction.__init__: the scaling loop does not test abs(x - round(x)) against a tolerance (normalisation idiom changed)")
     after = None
-    body = init.node.body
     for st in ast.walk(init.node):
-        if isinstance(st, ast.Assign) and isinstance(st.targets[0], ast.Name) and st.targets[0].id == "a" and isinstance(st.value, ast.Call) and isinstance(st.value.func, ast.Name) and st.value.func.id in ("round", "int", "floor", "ceil", "trunc") \
-                and st.lineno > loops[0].end_lineno:
-            after = st
-    ok = cond == "abs(a-round(a))>SMALL" and after is not None and ast.unparse(after.value).replace(" ", "") == "round(a)"
-    rep.check(ok, "C18.R2", "Fraction.__init__:rounding", "the numerator is scaled until it is within SMALL of round(a) and then converted with that same round(a)",
-              "Fraction.__init__ scales the numerator under `%s` but converts it with `%s`: a scaled value just below an integer (0.57*100 = 56.99999999999999) is truncated" % (cond, ast.unparse(after.value) if after is not None else None), fn=init)
+        if isinstance(st, ast.Assign) and isinstance(st.targets[0], ast.Name) and st.targets[0].id == X and isinstance(st.value, ast.Call) and st.lineno > loops[0].end_lineno \
+                and len(st.value.args) >= 1 and isinstance(st.value.args[0], ast.Name) and st.value.args[0].id == X:
+            fname = st.value.func.id if isinstance(st.value.func, ast.Name) else st.value.func.attr if isinstance(st.value.func, ast.Attribute) else None
+            if fname in ("round", "int", "floor", "ceil", "trunc"):
+                after = (st, fname)
+    if after is None:
+        raise AnalysisError("Fraction.__init__: the conversion of the scaled numerator to an integer was not found after the loop")
+    rep.check(after[1] == "round", "C18.R2", "Fraction.__init__:rounding", "the numerator is scaled until it is within SMALL of round(a) and then converted with that same round(a)",
+              "Fraction.__init__ scales the numerator until it is within a tolerance of round(%s) but converts it with `%s`: a scaled value just below an integer (0.57*100 = 56.99999999999999) is truncated" % (X, ast.unparse(after[0].value)), fn=init)
     # number operands are lifted before use: with `other` an int, a float or a Fraction, every attribute
     # the dunder reads from `other` must exist (type-state analysis; the lifting may be inline or in a helper)
     from ..guards import GuardAnalysis, show_state
